@@ -25,11 +25,14 @@ def expression_set(tier):
     for op in ("==", ">=", "<", "!="):
         twins += [("cmp", "fields", ("x",), op, 2), ("cmp", "fields", ("x",), op, 2.0), ("cmp", "fields", ("x",), op, 0), ("cmp", "fields", ("x",), op, -0.0)]
         twins += [("cmp", "time", (), op, ("T", BASE_US, 0)), ("cmp", "time", (), op, ("T", BASE_US, 330)), ("cmp", "time", (), op, ("T", BASE_US, -480))]
+    # comparison values whose Python hashes collide although the values differ (hash(-1) == hash(-2) in CPython)
+    for op in ("==", "<", ">="):
+        twins += [("cmp", "fields", ("x",), op, -1), ("cmp", "fields", ("x",), op, -2), ("cmp", "fields", ("x",), op, -2.0)]
     A = A + [t for t in twins if t not in A]
     E = list(A) + [("not", a) for a in A]
     sub = quick_atoms(A)[: (18 if tier == "quick" else 34)]
     lits = sub if tier == "quick" else sub + [("not", a) for a in sub[:12]]
-    lits = lits + naive[:3] + twins[:7]
+    lits = lits + naive[:3] + twins[:7] + twins[-9:-6]
     for a in lits:
         for b in lits:
             E.append(("and", a, b))
